@@ -403,6 +403,7 @@ func buildMergePop(r Rng, disjoint bool) *mergePop {
 	cfg.RowDataCompression = bs.CompressionNone
 	cfg.MaxRowGroupRows = pick(r, []int{2, 4, 100})
 	cfg.MaxFilesToMergePerOperation = 6
+	cfg.MinMaxIndexes = []string{"k"} // ranges differ per block (some nested in others): a merge widens metadata
 	env := NewEnv(cfg)
 	nfiles := 4 + r.IntN(3)
 	id := 0
@@ -421,7 +422,7 @@ func buildMergePop(r Rng, disjoint bool) *mergePop {
 		}
 		for _, p := range shape {
 			id++
-			rows = append(rows, map[string]any{"_id": id, "p": p, "pad": strings.Repeat("x", 20)})
+			rows = append(rows, map[string]any{"_id": id, "p": p, "pad": strings.Repeat("x", 20), "k": 500 + (id%2*2-1)*id*10})
 		}
 		env.IngestWait(rows)
 	}
@@ -458,6 +459,27 @@ func (p *mergePop) instantiate() *Env {
 
 var mergeOps = map[string]bool{"iter": true, "create": true, "open": true, "read": true, "closeR": true, "write": true, "close": true, "update": true, "tombstone": true, "abort": true}
 
+// metaSig: the MetaStore's content as text (pointer and block metadata, filters left out): a merge that does not
+// commit leaves it exactly as it was.
+func metaSig(meta bs.MetaStore) string {
+	files, _ := AllFiles(meta.(*FaultMeta).MetaStore)
+	var ps []string
+	for _, f := range files {
+		ps = append(ps, string(f.PointerBytes)+"="+fmt.Sprint(stripFilters(f.Metadata)))
+	}
+	sort.Strings(ps)
+	return strings.Join(ps, "\n")
+}
+
+// prefilteredIDs: the answers of a few strict minmax prefilters (metadata-only decisions).
+func prefilteredIDs(eng *bs.BloomSearchEngine) string {
+	var out []string
+	for _, cond := range []bs.NumericCondition{bs.NumericGreaterThanEqual(520), bs.NumericLessThanEqual(480), bs.NumericBetween(495, 505), bs.NumericGreaterThan(560)} {
+		out = append(out, fmt.Sprint(idsOf(RunQuery(eng, bs.NewQuery().MatchPrefilter(bs.MinMax("k", cond)).Build()).Rows)))
+	}
+	return strings.Join(out, " | ")
+}
+
 func pointerSet(meta bs.MetaStore) string {
 	files, _ := AllFiles(meta.(*FaultMeta).MetaStore)
 	var ps []string
@@ -480,6 +502,8 @@ func runC13(c *ctx) {
 		base := pop.instantiate()
 		before := pointerSet(base.Meta)
 		beforeIDs, _ := visibleIDs(base.Eng)
+		pristineSig := metaSig(base.Meta)
+		pristinePre := prefilteredIDs(base.Eng)
 		base.Data.ResetLog()
 		stats, err := base.Eng.Merge(context.Background())
 		if err != nil || stats == nil {
@@ -651,6 +675,27 @@ func runC13(c *ctx) {
 			}
 			// content is unchanged either way
 			env.Data.ClearFaults()
+			if !committed {
+				// "the visible content is exactly as before": the metadata the MetaStore holds and what strict
+				// prefilters answer from it included (a merge works on the MetaStore's own values)
+				if sig := metaSig(env.Meta); sig != pristineSig {
+					c.r.Add(Finding{Kind: "violation", Check: "metadata-changed-by-failed-merge", Detail: fmt.Sprintf("a merge that did not commit (fault at %d, result %s) changed the metadata the MetaStore holds", k, result), Replay: map[string]any{"population": pi, "fault_position": k, "before": trunc(pristineSig, 1500), "now": trunc(sig, 1500)}})
+				}
+				if pre := prefilteredIDs(env.Eng); pre != pristinePre {
+					c.r.Add(Finding{Kind: "violation", Check: "merge-content", Detail: fmt.Sprintf("a merge that did not commit (fault at %d) changed what minmax-prefiltered queries return: %s -> %s", k, pristinePre, pre), Replay: replay})
+				}
+			}
+			// whatever the merge did, every file the MetaStore references reads back through its own footer (a
+			// directory-scanning MetaStore sees nothing else)
+			if cf, err := AllFiles(env.Meta.(*FaultMeta).MetaStore); err == nil {
+				pub := env.Data.Published()
+				for _, f := range cf {
+					if _, _, rerr := bs.ReadFileMetadata(bytes.NewReader(pub[string(f.PointerBytes)])); rerr != nil {
+						c.r.Add(Finding{Kind: "violation", Check: "committed-file-unreadable", Detail: fmt.Sprintf("after a merge with a fault at %d (result %s, committed=%v) the MetaStore references file %s whose own footer does not read back (%v): served from a directory scan its rows are gone", k, result, committed, f.PointerBytes, rerr), Replay: replay})
+						break
+					}
+				}
+			}
 			got, qerr := visibleIDs(env.Eng)
 			if result != "postcommit" || true {
 				if fmt.Sprint(got) != fmt.Sprint(beforeIDs) || qerr != nil {
@@ -696,6 +741,7 @@ func runC10(c *ctx) {
 		"the files the engine wrote, in creation order, must equal the flush requests the Lean actor predicts (partitions, row ids in order, bytes, waiters from the hook events); plus a timing monitor for the time trigger with slack. " +
 		"Non-trivial = at least one limit-triggered flush; distinct by message text"
 	r := NewRng(c.seed, 1000)
+	c10LimitFlushAnsweredUnderFaults(c)
 	n := 60 * c.scale
 	for i := 0; i < n; i++ {
 		cfg := bs.DefaultBloomSearchEngineConfig()
@@ -1094,5 +1140,66 @@ func c06FSDirectory(c *ctx, which string) {
 			c.r.Add(Finding{Kind: "violation", Check: "ack-vs-visibility", Detail: fmt.Sprintf("the first batch was acknowledged nil but a fresh engine over the directory sees %v", fresh), Replay: replay})
 		}
 		os.RemoveAll(dir)
+	}
+}
+
+// c10LimitFlushAnsweredUnderFaults: a flush started by a limit (no Flush call) whose k-th store call fails, alone
+// and together with the call after it (the cleanup of the failure fails too): the batches it covers are answered
+// - with an error - and a later healthy batch is flushed and acknowledged as usual.
+func c10LimitFlushAnsweredUnderFaults(c *ctx) {
+	for k := 1; k <= 12; k++ {
+		for _, double := range []bool{false, true} {
+			cfg := bs.DefaultBloomSearchEngineConfig()
+			cfg.MaxBufferedTime = time.Hour
+			cfg.MaxBufferedRows = 2
+			store := NewMemStore()
+			if double {
+				store.SetFaults([]string{"create", "write", "close", "abort", "update", "tombstone"}, k, k+1)
+			} else {
+				store.SetFaults([]string{"create", "write", "close", "update"}, k)
+			}
+			eng, err := bs.NewBloomSearchEngine(cfg, &FaultMeta{MetaStore: bs.NewMemoryMetaStore(), s: store}, store)
+			if err != nil {
+				fatal("engine: %v", err)
+			}
+			eng.Start()
+			d1, d2 := make(chan error, 1), make(chan error, 1)
+			eng.IngestRows(context.Background(), []map[string]any{{"_id": 1}}, d1)
+			eng.IngestRows(context.Background(), []map[string]any{{"_id": 2}}, d2) // reaches MaxBufferedRows: flush
+			answered := 0
+			for _, d := range []chan error{d1, d2} {
+				select {
+				case <-d:
+					answered++
+				case <-time.After(5 * time.Second):
+				}
+			}
+			store.ClearFaults()
+			d3, d4 := make(chan error, 1), make(chan error, 1)
+			eng.IngestRows(context.Background(), []map[string]any{{"_id": 3}}, d3)
+			eng.IngestRows(context.Background(), []map[string]any{{"_id": 4}}, d4)
+			later := 0
+			for _, d := range []chan error{d3, d4} {
+				select {
+				case e := <-d:
+					if e == nil {
+						later++
+					}
+				case <-time.After(5 * time.Second):
+				}
+			}
+			replay := map[string]any{"failing_call": k, "next_call_fails_too": double, "MaxBufferedRows": 2}
+			c.r.Case(true, fmt.Sprint("limit-flush-faults", k, double))
+			c.r.Hit("actor.limit-flush-under-faults")
+			if answered != 2 {
+				c.r.Add(Finding{Kind: "violation", Check: "limit-flush-unanswered", Detail: fmt.Sprintf("a flush started by MaxBufferedRows whose store call #%d failed (next call failing too: %v) answered %d of its 2 batches within 5s", k, double, answered), Replay: replay})
+			}
+			if later != 2 {
+				c.r.Add(Finding{Kind: "violation", Check: "limit-flush-unanswered", Detail: fmt.Sprintf("after that failed flush, a later healthy pair of batches was acknowledged nil %d of 2 times within 5s", later), Replay: replay})
+			}
+			ctx, cancel := context.WithTimeout(context.Background(), 5*time.Second)
+			eng.Stop(ctx)
+			cancel()
+		}
 	}
 }
